@@ -213,15 +213,37 @@ def _find_shebang(source):
     """
 
     if isinstance(source, bytes):
-        shebang = re.match(br'^#!.*', source)
+        shebang = re.match(br'^#![^\r\n]*', source)
         if shebang:
-            return shebang.group().decode()
+            return shebang.group().decode(_source_encoding(source))
     else:
-        shebang = re.match(r'^#!.*', source)
+        shebang = re.match(r'^#![^\r\n]*', source)
         if shebang:
             return shebang.group()
 
     return None
+
+
+def _source_encoding(source):
+    """
+    The encoding declared by source bytes (PEP 263), utf-8 if there is no declaration
+    """
+
+    for line in source.splitlines()[:2]:
+        cookie = re.match(br'^[ \t\f]*#.*?coding[:=][ \t]*([-\w.]+)', line)
+        if cookie:
+            try:
+                encoding = cookie.group(1).decode('ascii')
+                b''.decode(encoding)
+                return encoding
+            except (LookupError, UnicodeDecodeError):
+                return 'utf-8'
+
+        if not re.match(br'^[ \t\f]*(?:#.*)?$', line):
+            # Only a comment or blank first line can be followed by an encoding declaration
+            break
+
+    return 'utf-8'
 
 
 def unparse(module):
